@@ -87,7 +87,7 @@ func Lexemes(special string) []string {
 
 var Specials = []string{"\x00", "\x1a", "\xff", "=", "&", "!", "\r\n", ";c", "|", ">", "==", "\xc3",
 	// non-ASCII digits, letters and spaces; operator characters glued to the next token
-	"\u0663", "1\u0663", "\u00e9", "\u00a0", "\u2028", "=x", "&x", "|x", "<=", ">=x", "\x1ax", "0x", "1.5", "a.b.c", "$$", "\t", "\x0c"}
+	"\u0663", "1\u0663", "\u00e9", "\u00a0", "\u2028", "=x", "&x", "|x", "<=", ">=x", "\x1ax", "0x", "1.5", "a.b.c", "$$", "\t", "\x0c", "||", "&&", "!="}
 
 // Seeds of the mutation space.
 func Seeds() []string {
